@@ -16,6 +16,7 @@ package parsigdb
 //@ invariant MemDB: forallk(k, self.entries, distinctShares(self.entries[k]))
 
 //@ func getThresholdMatching
+//@ freshspine r0
 //@ props C07 C01
 //@ pure
 //@ requires threshold >= 1 && distinctShares(sigs)
@@ -87,6 +88,7 @@ package parsigdb
 //@ loop 2 invariant forall(a, 0, $i, clones[a].ShareIdx == sigs[a].ShareIdx && rootOf(clones[a]) == rootOf(sigs[a]))
 
 //@ func matchingSigs
+//@ freshspine r0
 //@ props C07 C01
 //@ ensures r1 == nil && typ == core.DutySignature ==> r0 == sigs
 //@ ensures r1 == nil && typ != core.DutySignature ==> forall(a, 0, len(r0), rootOf(r0[a]) == rootOf(sig) && memberOf(r0[a], sigs, len(sigs)))
